@@ -87,6 +87,7 @@ type state struct {
 	checkPfx bool   // the maps were consistent when the current Apply started
 	pfxBad   bool
 	curOp    string
+	nontriv  bool
 }
 
 // recMap is a mock BPF map that reports (and can fail) every single write.
@@ -546,6 +547,14 @@ func exec(h *rt.H, s *state, op string) (string, string) {
 			finalOracle(h, s, svcs, post, op)
 		}
 		h.Count(fmt.Sprintf("apply:writes:%s", bucket(len(s.trace))))
+		kinds := map[string]bool{}
+		for _, w := range s.trace {
+			kinds[w.kind] = true
+		}
+		h.Count(fmt.Sprintf("apply:phases-with-writes:%d", len(kinds)))
+		if len(kinds) >= 3 {
+			s.nontriv = true
+		}
 		return showApply(pre, post, err == nil, s.trace), strings.Join(w, " ") + " " + idHint(s.syn, tok)
 	}
 	panic("unknown op " + op)
@@ -565,10 +574,141 @@ func bucket(n int) string {
 }
 
 // finalOracle: what the property says about the maps once a sync completed (evaluated on the REAL maps).
+// The generator never lets two different services claim one frontend address:port:proto.
 func finalOracle(h *rt.H, s *state, svcs []svcT, d dp, op string) {
+	fail := func(sig, why string) { h.OracleFail(sig, "after a completed sync: "+why, map[string]any{"op": op}) }
 	if ok, why := consistent(d); !ok {
-		h.OracleFail("final-inconsistent", "after a completed sync: "+why, map[string]any{"op": op})
+		fail("final-inconsistent", why)
 		return
+	}
+	// stale backends removed: every backend entry is counted by some frontend
+	for bk := range d.B {
+		used := false
+		for _, v := range d.F {
+			if v.id == bk.id && v.count != blackHole && bk.idx < v.count {
+				used = true
+				break
+			}
+		}
+		if !used {
+			fail("final-stale-backend", fmt.Sprintf("backend (%d,%d) is referenced by no frontend", bk.id, bk.idx))
+			return
+		}
+	}
+	inl := func(xs []uint32, x uint32) bool {
+		for _, y := range xs {
+			if x == y {
+				return true
+			}
+		}
+		return false
+	}
+	// stale frontends removed: every frontend belongs to a current service
+	for k := range d.F {
+		owned := false
+		for _, sv := range svcs {
+			if sv.proto != k.proto {
+				continue
+			}
+			zero := k.sip == 0 && k.slen == 0
+			srcOK := zero
+			for _, r := range sv.src {
+				if r[2] == 0 && r[0] == k.sip && r[1] == k.slen {
+					srcOK = true
+				}
+			}
+			if k.port == sv.port && ((k.ip == sv.cip && zero) || ((inl(sv.ext, k.ip) || inl(sv.lb, k.ip)) && srcOK)) {
+				owned = true
+			}
+			if sv.np != 0 && k.port == sv.np && zero && (inl(s.npIPs, k.ip) || sv.flags&2 != 0) {
+				owned = true // node port on a local address, or a per-node (NodePortRemote) frontend of an internal-local service
+			}
+		}
+		if !owned {
+			fail("final-stale-frontend", fmt.Sprintf("frontend %v belongs to no current service", k))
+			return
+		}
+	}
+	// each service: cluster IP frontend lists exactly its ready endpoints, local ones first; external,
+	// load-balancer and node-port frontends list the same block
+	for _, sv := range svcs {
+		pk := fkey{sv.cip, sv.port, sv.proto, 0, 0}
+		pv, ok := d.F[pk]
+		if !ok {
+			fail("final-missing-frontend", fmt.Sprintf("service %s has no cluster-IP frontend %v", sv.name, pk))
+			return
+		}
+		plain := !strings.EqualFold(sv.topo, "auto") && !strings.HasPrefix(sv.name, "default/kubernetes")
+		var loc, rem []string
+		for _, e := range sv.eps {
+			if len(e.zh) > 0 || len(e.nh) > 0 {
+				plain = false // traffic distribution may narrow the endpoint set
+			}
+			if e.flags&2 != 0 {
+				if e.flags&1 != 0 {
+					loc = append(loc, bval{e.ip, e.port}.String())
+				} else {
+					rem = append(rem, bval{e.ip, e.port}.String())
+				}
+			}
+		}
+		if plain && pv.count != blackHole {
+			var gl, gr []string
+			for i := uint32(0); i < pv.count; i++ {
+				bv := d.B[bkey{pv.id, i}]
+				if i < pv.lcl {
+					gl = append(gl, bv.String())
+				} else {
+					gr = append(gr, bv.String())
+				}
+			}
+			sort.Strings(loc)
+			sort.Strings(rem)
+			sort.Strings(gl)
+			sort.Strings(gr)
+			if strings.Join(gl, ",") != strings.Join(loc, ",") || strings.Join(gr, ",") != strings.Join(rem, ",") {
+				fail("final-backends-not-exact", fmt.Sprintf("service %s: frontend lists local=%v remote=%v, ready endpoints are local=%v remote=%v", sv.name, gl, gr, loc, rem))
+				return
+			}
+			h.Count("oracle:exact-checked")
+		}
+		var v4src bool
+		for _, r := range sv.src {
+			v4src = v4src || r[2] == 0
+		}
+		check := func(k fkey, what string) bool {
+			v, ok := d.F[k]
+			if !ok {
+				fail("final-missing-frontend", fmt.Sprintf("service %s has no %s frontend %v", sv.name, what, k))
+				return false
+			}
+			if v.id != pv.id || v.count != pv.count || v.lcl != pv.lcl {
+				fail("final-derived-differs", fmt.Sprintf("service %s: %s frontend %v = (id %d,count %d) but cluster IP frontend = (id %d,count %d)", sv.name, what, k, v.id, v.count, pv.id, pv.count))
+				return false
+			}
+			return true
+		}
+		for _, e := range append(append([]uint32{}, sv.ext...), sv.lb...) {
+			if len(sv.src) == 0 {
+				if !check(fkey{e, sv.port, sv.proto, 0, 0}, "external/LB") {
+					return
+				}
+			} else {
+				for _, r := range sv.src {
+					if r[2] == 0 && !check(fkey{e, sv.port, sv.proto, r[0], r[1]}, "source-range") {
+						return
+					}
+				}
+			}
+		}
+		if sv.np != 0 && sv.flags&2 == 0 {
+			for _, n := range s.npIPs {
+				if !check(fkey{n, sv.np, sv.proto, 0, 0}, "node-port") {
+					return
+				}
+			}
+		}
+		_ = v4src
 	}
 }
 
@@ -923,7 +1063,10 @@ func genCase(h *rt.H) []string {
 func main() {
 	h := rt.New()
 	defer h.Close()
-	h.Rule = "TODO"
+	h.Rule = "case = new syncer (random node-port IPs, /32 routes) [+ foreign writes + restart] then 3..12 syncs of an evolving service/endpoint state " +
+		"(add/remove/change services: ports, node ports, external/LB IPs, source ranges, affinity, traffic policy, topology mode, protocol; endpoints: add/remove/ready/local/hints), " +
+		"12% of syncs with every write of one phase failing, 12% followed by [foreign writes +] restart; no two services share a frontend address:port:proto; " +
+		"distinct = distinct op sequence; non-trivial = some sync performed writes in >= 3 phases"
 	run := func(ops []string, tag string) {
 		h.Case(tag)
 		s := &state{h: h}
@@ -939,6 +1082,9 @@ func main() {
 		}
 		if s.syn != nil {
 			s.syn.Stop()
+		}
+		if s.nontriv {
+			h.Nontrivial(strings.Join(ops, ";"))
 		}
 		h.Sample()
 	}
